@@ -450,7 +450,13 @@ func c16CheckSetString(r *rt.Result, l *c16Local, cs c16Case) {
 		return
 	}
 	if err != nil && cs.Via != "NewDecimalString" && got != nil && got.Cmp(big.NewInt(sentinel)) != 0 {
-		l.ctr["observed_value_touched_on_error"]++ // documented by the library, not stated by the property: counted only
+		// "rejected with an error instead of ... changing the value": the
+		// decimal held the sentinel before the call, the input was rejected,
+		// and now it holds something else (SetString documents "if an error
+		// is returned dec is untouched")
+		l.ctr["observed_value_touched_on_error"]++
+		r.Violate("setstring/rejected-but-value-changed", fmt.Sprintf("(%d,%d) SetString(%q) returned %v, but the decimal, which held the unscaled value %d before, now holds %s", p, s, cs.Text, err, sentinel, got), cs)
+		return
 	}
 	where := fmt.Sprintf("(%d,%d) %s(%q)", p, s, cs.Via, cs.Text)
 	switch cl.verdict {
@@ -573,6 +579,7 @@ func c16CheckReuse(r *rt.Result, l *c16Local, cs c16Case) {
 	}
 	u := new(big.Int)
 	sc := cs.S
+	rejectOK := true
 	for si, st := range cs.Steps {
 		var got string
 		var back *big.Int
@@ -599,6 +606,18 @@ func c16CheckReuse(r *rt.Result, l *c16Local, cs c16Case) {
 			case "scale":
 				d.Scale = st.S
 				sc = st.S
+			case "precision":
+				d.Precision = st.S // an exported field, set by users and by the field readers
+			case "setstring-rejected":
+				// more digits than the precision in force: must be refused,
+				// and the value stays what it was
+				err = d.SetString(c16Expand(arg, sc))
+				if err == nil {
+					err = fmt.Errorf("accepted")
+					rejectOK = false
+				} else {
+					err = nil
+				}
 			case "string-twice":
 				_ = d.String()
 			}
@@ -610,8 +629,12 @@ func c16CheckReuse(r *rt.Result, l *c16Local, cs c16Case) {
 			r.Violate("panic/"+pi.Frame+"/reuse", fmt.Sprintf("(%d,%d) step %d (%s %s): panicked: %s", cs.P, cs.S, si+1, st.Op, st.U, pi.Value), cs)
 			return
 		}
+		if !rejectOK {
+			r.Violate("reuse/setstring-accepted-beyond-precision", fmt.Sprintf("(%d,%d) after steps %v: SetString(%q) was accepted although the precision in force is %d", cs.P, sc, cs.Steps[:si+1], c16Expand(arg, sc), d.Precision), cs)
+			return
+		}
 		if err != nil {
-			r.Violate("reuse/setstring-rejected", fmt.Sprintf("(%d,%d) step %d: SetString(%q) on a decimal that held another value before fails: %v", cs.P, sc, si+1, c16Expand(arg, sc), err), cs)
+			r.Violate("reuse/setstring-rejected", fmt.Sprintf("(%d,%d) after steps %v: SetString(%q) fails although the precision in force is %d: %v", cs.P, sc, cs.Steps[:si+1], c16Expand(arg, sc), d.Precision, err), cs)
 			return
 		}
 		if back == nil || back.Cmp(u) != 0 {
@@ -968,17 +991,41 @@ func runC16(c *Ctx) {
 				return u
 			}
 			sc := s
+			pr := p
 			for n := rnd.Range(2, 8); n > 0; n-- {
 				var st c16Step
-				switch rnd.Intn(8) {
+				switch rnd.Intn(11) {
+				case 8:
+					// another precision (not below the scale, and not below
+					// the digits the decimal may hold: set a fitting value first)
+					pr = rnd.Range(sc, 38)
+					if pr < 1 {
+						pr = 1
+					}
+					cs.Steps = append(cs.Steps, c16Step{Op: "setint64", U: "0"})
+					st = c16Step{Op: "precision", S: pr}
+				case 9:
+					// exactly as many digits as the precision in force allows
+					u := c16Digits("9" + c16RandDigits(rnd, pr)[1:])
+					if pr == 1 {
+						u = big.NewInt(9)
+					}
+					st = c16Step{Op: "setstring", U: u.String()}
+				case 10:
+					if pr >= 38 {
+						st = c16Step{Op: "string-twice"}
+						break
+					}
+					u := c16Digits("1" + c16RandDigits(rnd, pr))
+					st = c16Step{Op: "setstring-rejected", U: u.String()}
 				case 0, 1:
-					st = c16Step{Op: "setbytes", U: randU(p).String()}
+					st = c16Step{Op: "setbytes", U: randU(pr).String()}
 				case 2:
-					st = c16Step{Op: "setbytes-negate", U: randU(p).String()}
+					st = c16Step{Op: "setbytes-negate", U: randU(pr).String()}
 				case 3:
 					st = c16Step{Op: "negate"}
 				case 4:
-					md := p
+					md := pr
 					if md > 18 {
 						md = 18
 					}
@@ -988,13 +1035,13 @@ func runC16(c *Ctx) {
 					}
 					st = c16Step{Op: "setint64", U: u.String()}
 				case 5:
-					u := randU(p)
+					u := randU(pr)
 					if rnd.Bool() {
 						u.Neg(u)
 					}
 					st = c16Step{Op: "setstring", U: u.String()}
 				case 6:
-					sc = rnd.Range(0, p)
+					sc = rnd.Range(0, pr)
 					st = c16Step{Op: "scale", S: sc}
 				default:
 					st = c16Step{Op: "string-twice"}
